@@ -214,7 +214,8 @@ private def bm : Build :=
   { namer := { autosomePrefix := [] }, nextOid := 4, joinGap := some jg, err := 1,
     found := [(fb.keyTuple, { fragment := fb, scaffolds := [0] })] }
 example : missingRows bm [.frag fa, .gap g5, .frag fb, .frag fc] = .ok ([.frag fa, .gap jg, .frag fc], some 0) := by decide
-example : missingRows bm [.frag fb, .frag fa, .frag fb, .gap g5, .frag fc] = .ok ([.frag fa, .gap g5, .frag fc], some 1) := by
+/-- fix 9be92a2: a contig placed elsewhere lay between the two left-overs, so the join gap is used, not the input gap in front of `fc` -/
+example : missingRows bm [.frag fb, .frag fa, .frag fb, .gap g5, .frag fc] = .ok ([.frag fa, .gap jg, .frag fc], some 1) := by
   decide
 /-- model change f6b: when only gap rows separate two left-over contigs, every one of them is kept -/
 example : missingRows bm [.frag fa, .gap g5, .gap jg, .gap g5, .frag fc] =
